@@ -28,6 +28,10 @@ def harvested() -> list[dict]:
     return json.load(open(os.path.join(CORPUS, "harvest.json")))
 
 
+def layout_seeds() -> list[str]:
+    return json.load(open(os.path.join(CORPUS, "py_layout_seeds.json")))
+
+
 def xonsh_seeds() -> list[str]:
     return json.load(open(os.path.join(CORPUS, "xonsh_seeds.json")))
 
@@ -36,6 +40,7 @@ def programs(cap: int = 10**9, modes=("exec", "eval")) -> list[tuple[str, str]]:
     """(name, source) pairs, deterministic order, capped (stratified sample by seed)."""
     out = [(n, s) for n, s in data_files()]
     out += [(f"xsh{i}", s) for i, s in enumerate(xonsh_seeds())]
+    out += [(f"lay{i}", s) for i, s in enumerate(layout_seeds())]
     hv = [h for h in harvested() if h["mode"] in modes]
     rng = random.Random(SEED + 5)
     if len(hv) > cap:
